@@ -1,6 +1,6 @@
 package block
 
-// events per channel: quick 2, thorough 3; DA heights of the blobs: quick fixed (5,9,6,8 above scan position 3), thorough arbitrary
+// events per channel: 2 (3 was tried for the thorough tier: does not finish in 90 min); DA heights of the blobs: quick fixed (5,9,6,8 above scan position 3), thorough arbitrary
 var zzC02Len = 2
 var zzC02SymbolicDA = false
 
